@@ -92,6 +92,7 @@ fn real_main() {
                 "pool" => pool::gen_case(&mut crng),
                 "solve" => { let k = *crng.pick(&[gen::Kind::General, gen::Kind::General, gen::Kind::Tight, gen::Kind::Tight, gen::Kind::Hints]); solve::gen_case(&mut crng, k) }
                 "soft" => solve::gen_case(&mut crng, gen::Kind::Soft),
+                "lazy" => solve::gen_case(&mut crng, gen::Kind::Lazy),
                 "conflictfree" => solve::gen_case(&mut crng, gen::Kind::ConflictFree),
                 f => panic!("unknown family {f}"),
             },
@@ -108,7 +109,7 @@ fn real_main() {
             "amo" => guarded(move || amo::run_case(&l2)),
             "cache" => guarded(move || cache::run_case(&l2)),
             "pool" => guarded(move || pool::run_case(&l2)),
-            "solve" | "soft" | "conflictfree" => guarded(move || solve::run_case(&l2)),
+            "solve" | "soft" | "conflictfree" | "lazy" => guarded(move || solve::run_case(&l2)),
             f => panic!("unknown family {f}"),
         };
         writeln!(impl_f, "case {i} {family}").unwrap();
